@@ -23,6 +23,15 @@ func init() {
 			}
 			return p
 		},
+		World: func(cfg *WorldCfg, r *Rng) {
+			// an eighth of the cases (chosen by the case seed, no draw): only the smallest genesis validator runs with a
+			// bridge key; the fragment lastBridgeValidatorLeaves then makes it leave the bonded set
+			if cfg.Seed%8 == 5 {
+				cfg.Keyless, cfg.KeyedVal = true, 3
+				cfg.NumVals = 4
+				cfg.ValStake = []int64{5000, 3000, 2000, 400, 1000, 1000}
+			}
+		},
 		Monitors:         func(st *Stats) []Monitor { return []Monitor{NewPhaseStats(st)} },
 		Cases:            tierMap(48, 160),
 		Blocks:           tierMap(200, 600),
